@@ -15,7 +15,7 @@ def run(patch):
         shutil.copy(os.path.join(VERIF, "known_findings.json"), tv)
         os.makedirs(os.path.join(tv, "checker"), exist_ok=True)
         shutil.copy(os.path.join(VERIF, "checker", "known_funcs.txt"), os.path.join(tv, "checker"))
-        r = subprocess.run([os.path.join(VERIF, "bin/verifcheck"), "-repo", dst, "-verif", tv, "-prop", "all"], capture_output=True, text=True)
+        r = subprocess.run([os.environ.get("VERIFCHECK_BIN", os.path.join(VERIF, "bin/verifcheck")), "-repo", dst, "-verif", tv, "-prop", "all"], capture_output=True, text=True)
         out = r.stdout + r.stderr
         alarms = re.findall(r"^\s+(?:VIOLATION|UNDECIDED) (R-C\d\d-[A-Z0-9]+:\S+)", out, re.M)
         return alarms, out[-400:] if r.returncode == 2 else ""
